@@ -52,6 +52,16 @@ type scen struct {
 	nfile int
 	// Crashers are daemons scripted to die (excluded from the serving census).
 	Crashers map[string]bool `json:"crashers,omitempty"`
+	// Fallbacks are executed by the runner: once file When exists, wait AfterMs
+	// and create file Touch (if it does not exist yet). They bound the time a
+	// process stays parked when the awaited step cannot happen on this tree.
+	Fallbacks []fallback `json:"fallbacks,omitempty"`
+}
+
+type fallback struct {
+	When    string `json:"when"`
+	AfterMs int    `json:"after_ms"`
+	Touch   string `json:"touch"`
 }
 
 func newScen(kind, stale string, shells ...string) *scen {
@@ -86,6 +96,21 @@ func (s *scen) edgeLate(from, fromPoint, to, toPoint string) *scen {
 	add(s.tail, from, fromPoint, "touch:"+f)
 	add(s.wait, to, toPoint, "waitfile:"+f)
 	s.Edges = append(s.Edges, fmt.Sprintf("%s@%s(released) -> %s@%s", from, fromPoint, to, toPoint))
+	return s
+}
+
+// parkUntil: `to` stays at toPoint until `from` has logged fromPoint, but at
+// most ms milliseconds after `to` arrived there (the runner releases it).
+func (s *scen) parkUntil(from, fromPoint, to, toPoint string, ms int) *scen {
+	s.nfile++
+	rel := fmt.Sprintf("@R/%d", s.nfile)
+	s.nfile++
+	arrived := fmt.Sprintf("@R/%d", s.nfile)
+	add(s.touch, from, fromPoint, "touch:"+rel)
+	add(s.touch, to, toPoint, "touch:"+arrived)
+	add(s.wait, to, toPoint, "waitfile:"+rel)
+	s.Fallbacks = append(s.Fallbacks, fallback{When: arrived, AfterMs: ms, Touch: rel})
+	s.Edges = append(s.Edges, fmt.Sprintf("%s@%s -> %s@%s (or %dms after arrival)", from, fromPoint, to, toPoint, ms))
 	return s
 }
 
@@ -313,6 +338,35 @@ func forcedTable() []*scen {
 			s.sleep("dB", pDaemonStart, ms)
 			s.edge("B", pActivated, "A", pHold)
 			t = append(t, s)
+		}
+	}
+
+	// --- T10: the exiting daemon is parked at beforeRemoveSocket (its last
+	// client has left, the removal of the socket file is the next step) while
+	// a new shell B runs its whole activation; then the daemon goes on. What
+	// B meets in that window is up to the implementation (a listener that
+	// still accepts, a file that refuses, no file); whatever B ends up
+	// connected to must still be reachable after the old daemon is gone.
+	// A third shell C arrives after the old daemon has exited.
+	for _, stale := range []string{"", "file"} {
+		for _, rel := range []point{{"B", pActivated}, {"dB", pReady}, {"B", pReq1}} {
+			for _, third := range []bool{false, true} {
+				names := []string{"A", "B"}
+				if third {
+					names = append(names, "C")
+				}
+				s := newScen("exitpark", stale, names...)
+				s.Desc = fmt.Sprintf("stale=%q; A leaves; dA parked at beforeRemoveSocket until %s; B arrives when dA is parked; third shell=%v", stale, rel, third)
+				s.edge("B", pStart, "A", pStart) // B is up and parked before anything happens
+				s.edge("dA", pBeforeRmSock, "B", pStart)
+				s.parkUntil(rel.proc, rel.p, "dA", pBeforeRmSock, 2500)
+				s.edge("dA", pExit, "B", pHold) // B is still connected when the old daemon has gone
+				if third {
+					s.edge("dA", pExit, "C", pStart)
+					s.parkUntil("C", pActivated, "B", pHold, 4000)
+				}
+				t = append(t, s)
+			}
 		}
 	}
 
